@@ -66,7 +66,7 @@ def check_property(pid, tier, seed, project=None, cache=None, replay=None, quiet
     rule_names = []
     for e in entries:
         if isinstance(e, (tuple, list)):
-            scopes[e[0]] = tuple(e[1])
+            scopes[e[0]] = tuple(scopes.get(e[0], ())) + tuple(e[1])        # the same rule listed twice: union of the scopes
             rule_names.append(e[0])
         else:
             rule_names.append(e)
